@@ -48,4 +48,68 @@ def apply (c : Cipher) : Bytes → Cipher × Bytes
 def crypt (key msg : Bytes) : Option Bytes :=
   (new key).map fun c => (apply c msg).2
 
+/-! ### The same code with every index CHECKED
+
+Rust's `s[i]` panics when `i` is out of bounds and `i % key.len()` panics on an empty key; the
+definitions above read with `getD … 0` and write with `setIfInBounds`, which would silently
+default.  `Checked.*` is the same code with `s[i]?`: `none` = the Rust would panic.
+`Proofs.Rc4.checked_crypt_eq` shows `Checked.crypt = crypt` for every key and message, i.e. no
+read ever defaults and no write is ever dropped. -/
+namespace Checked
+
+def swap (s : Array Byte) (i j : Nat) : Option (Array Byte) :=
+  match s[i]?, s[j]? with
+  | some a, some b => some ((s.setIfInBounds i b).setIfInBounds j a)
+  | _, _ => none
+
+def ksa (key : Array Byte) : Nat → Nat → Byte → Array Byte → Option (Array Byte)
+  | 0, _, _, s => some s
+  | n + 1, i, j, s =>
+    if key.size = 0 then none else
+    match s[i]?, key[i % key.size]? with
+    | some si, some ki =>
+      let j := j + si + ki
+      match swap s i j.toNat with
+      | some s' => ksa key n (i + 1) j s'
+      | none => none
+    | _, _ => none
+
+def new (key : Bytes) : Option Cipher :=
+  if key.isEmpty || key.length > 256 then none else
+  let s0 : Array Byte := (Array.range 256).map (BitVec.ofNat 8)
+  (ksa key.toArray 256 0 0 s0).map fun s => { s := s, i := 0, j := 0 }
+
+def next (c : Cipher) : Option (Cipher × Byte) :=
+  let i := c.i + 1
+  match c.s[i.toNat]? with
+  | none => none
+  | some si =>
+    let j := c.j + si
+    match swap c.s i.toNat j.toNat with
+    | none => none
+    | some s =>
+      match s[i.toNat]?, s[j.toNat]? with
+      | some a, some b =>
+        match s[(a + b).toNat]? with
+        | some o => some ({ s := s, i := i, j := j }, o)
+        | none => none
+      | _, _ => none
+
+def apply (c : Cipher) : Bytes → Option (Cipher × Bytes)
+  | [] => some (c, [])
+  | b :: bs =>
+    match next c with
+    | none => none
+    | some (c1, k) =>
+      match apply c1 bs with
+      | none => none
+      | some (c2, os) => some (c2, (b ^^^ k) :: os)
+
+def crypt (key msg : Bytes) : Option Bytes :=
+  match new key with
+  | none => none
+  | some c => (apply c msg).map (·.2)
+
+end Checked
+
 end Cascette.Model.Arc4
